@@ -719,6 +719,10 @@ def cff2(rnd, hvar=True, nglyphs=16):
         if len(args) * (nr + 1) + 1 > 500:
             return args + [op]
         mode = rnd.choice(["all", "each", "tail", "none"])
+        if op == "flex1" and abs(sum(args[0:10:2])) == abs(sum(args[1:10:2])):
+            # |dx| == |dy| decides which coordinate the last operand is: keep the tie exact (no
+            # blended thirds that float32 and double round to different sides)
+            mode = "none"
         if mode == "none":
             return args + [op]
         if mode == "all" and len(args) * (nr + 1) < 120:
